@@ -210,6 +210,12 @@ def harness(g, chart, level, canary=False):
                 g.prove(type(merr) is type(terr) or bool(failed_at), 'same_selection_error', info)
                 return 'stop'
             g.fail('unexpected_exception_in_unmonitored_run', lambda: dict(info(), exception=repr(terr)))
+        for ms_ in (ts.steps if ts is not None else []):
+            if ms_.transition is not None and twin.tindex(ms_.transition) == 0:
+                # the reference order is the order of the calls in the action code, not what the (same) implementation lists
+                g.prove([(e.name, e.data.get('k')) for e in ms_.sent_events] == [('c', 1), ('note', 0), ('b', 0), ('note', 9)],
+                        'sent_and_notified_in_the_order_of_the_calls',
+                        lambda: dict(info(), listed=[(e.name, e.data.get('k')) for e in ms_.sent_events]))
         exp = expected_stream(twin, ts, now)
         if canary:
             exp = exp[:-1]
